@@ -348,6 +348,10 @@ def divided_fields(fn):
     return out
 
 
+def tests_text(fn):
+    return [ast.unparse(t) for t in tests_of(fn)]
+
+
 STRUCT_SITES = [
     # (id, file, function, extractor, expected, properties)
     ("ingen_fields", "demes/demes.py", "Graph.in_generations", lambda fn: divided_fields(fn),
@@ -380,6 +384,30 @@ STRUCT_SITES = [
     ("cli_lookahead", "demes/__main__.py", "ParseCommand.load_and_count_documents",
      lambda fn: calls_in(fn, {"demes.load_all", "graph_list.append", "itertools.chain", "next"}),
      ["demes.load_all", "graph_list.append", "itertools.chain"], ["C19"]),
+    # the branch conditions of the glue code, as written (Model/Cli.v, Model/IO.v, Model/Files.v transcribe them)
+    ("cli_dispatch_tests", "demes/__main__.py", "ParseCommand.__call__", lambda fn: tests_text(fn),
+     ["args.json", "args.ms is not None", "args.ms and args.simplified", "num_documents == 0", "num_documents == 1",
+      "args.ms is not None", "output_format != 'yaml'"], ["C19"]),
+    ("cli_count_tests", "demes/__main__.py", "ParseCommand.load_and_count_documents", lambda fn: tests_text(fn),
+     ["len(graph_list) > 1"], ["C19"]),
+    ("open_polymorph_tests", "demes/load_dump.py", "_open_file_polymorph", lambda fn: tests_text(fn),
+     ["f is not polymorph"], ["C17"]),
+    ("stringify_tests", "demes/load_dump.py", "_stringify_infinities", lambda fn: tests_text(fn),
+     ["'start_time' in deme and math.isinf(deme['start_time'])",
+      "'start_time' in migration and math.isinf(migration['start_time'])"], ["C16", "C04"]),
+    ("unstringify_tests", "demes/load_dump.py", "_unstringify_infinities", lambda fn: tests_text(fn),
+     ["start_time == _INFINITY_STR", "start_time == _INFINITY_STR", "default in ['migration', 'deme']",
+      "start_time == _INFINITY_STR"], ["C16", "C04"]),
+    ("no_nulls_tests", "demes/load_dump.py", "_no_null_values", lambda fn: tests_text(fn), ["k != 'metadata'"], ["C16"]),
+    ("no_nulls_leaf_tests", "demes/load_dump.py", "_no_null_values.check_if_None", lambda fn: tests_text(fn),
+     ["val is None"], ["C16"]),
+    ("no_nulls_walk_tests", "demes/load_dump.py", "_no_null_values.assert_no_nulls", lambda fn: tests_text(fn),
+     ["isinstance(v, dict)", "isinstance(v, list)", "isinstance(e, dict)"], ["C16"]),
+    ("load_asdict_tests", "demes/load_dump.py", "load_asdict", lambda fn: tests_text(fn),
+     ["format == 'json'", "format == 'yaml'"], ["C16", "C04"]),
+    ("dump_tests", "demes/load_dump.py", "dump", lambda fn: tests_text(fn),
+     ["simplified", "format == 'json'", "format == 'yaml'"], ["C04", "C16"]),
+    ("dump_all_tests", "demes/load_dump.py", "dump_all", lambda fn: tests_text(fn), ["simplified"], ["C04"]),
 ]
 
 
